@@ -2,7 +2,7 @@
 //
 // State  = committed chain (sequence of canonical blocks: content kind x timestamp step), explored
 //
-//	breadth-first with mc.BFS to depth q:4 / t:5 (every state below the last level is fully expanded).
+//	breadth-first with mc.BFS to depth q:3 / t:4 (every state below the last level is fully expanded).
 //
 // Events = in every state: (a) the canonical successor (3 contents x 2 timestamp steps), (b) a successor with
 //
@@ -576,7 +576,7 @@ func main() {
 	native.Contracts[utils.NodeManagerContractAddress] = node_manager.RegisterNodeManagerContract
 	r := ev.Start("C13", "model_checking")
 	debug.SetGCPercent(1000) // every block execution / store open allocates multi-MiB buffers: keep freed spans for reuse
-	depth := r.QT(4, 5)
+	depth := r.QT(3, 4)
 	if v := os.Getenv("C13_DEPTH"); v != "" {
 		depth, _ = strconv.Atoi(v)
 	}
